@@ -817,6 +817,37 @@ func c13NewlineFlag(c *Ctx) {
 	if n == 0 {
 		c.undecided("R6", "flag-reads", "", "no read of Parser.didEndStatement found")
 	}
+	// the flag describes the gap before the *current* token only: every successful advance first
+	// clears it (and sets it again only when it skipped a newline) — a flag left over from a line
+	// break inside an earlier expression would end a later print list or statement early
+	if adv := p.LangFunc("(*Parser).advance"); adv != nil {
+		var clears []*ssa.Store
+		for _, st := range storesToField(adv, "Parser", "didEndStatement", false) {
+			if b, isC := constBool(st.Val); isC && !b {
+				clears = append(clears, st)
+			}
+		}
+		ek := EKOf(p)
+		stale := ""
+		for _, r := range returnsOf(adv) {
+			res := effectiveResults(r)
+			if !ek.KindsAt(res[len(res)-1], FactsOf(adv).At(r.Block())).Has(KNil) {
+				continue
+			}
+			cleared := false
+			for _, st := range clears {
+				if dominatesInstr(st, r) {
+					cleared = true
+				}
+			}
+			if !cleared {
+				stale = p.InstrPos(r)
+			}
+		}
+		c.check(len(clears) > 0 && stale == "", "R6", "advance-clears-flag", p.Pos(adv.Pos()), "every successful advance clears the newline flag first", "advance can return successfully (at "+stale+") without having cleared Parser.didEndStatement: a line break seen earlier in the statement is still remembered when the statement-end test is asked later")
+	} else {
+		c.undecided("R6", "advance-clears-flag", "", "anchor (*Parser).advance not found")
+	}
 	ase := p.LangFunc("(*Parser).atStatementEnd")
 	if ase == nil {
 		c.undecided("R6", "atStatementEnd", "", "anchor not found")
